@@ -33,6 +33,9 @@ class OrientedLine:
       if isinstance(args[0], OrientedLine):
         return
       elif isinstance(args[0], str):
+        if len(args[0]) == 0:
+          raise gfapy.FormatError("Cannot create an OrientedLine "+
+            "from an empty string")
         self.__line = args[0][0:-1]
         self.__orient = args[0][-1]
       elif isinstance(args[0], list):
